@@ -6,6 +6,8 @@ import PEval.Properties.C04Scene
 import PEval.Properties.C04Perfect
 import PEval.Properties.C04Pipeline
 import PEval.Properties.C04Area
+import PEval.Properties.C04ScenePipeline
+import PEval.Properties.C04SceneEval
 /-!
 # C04 — AP, APH and mAP equal the interpolated precision-recall area, within [0,1] (root)
 
@@ -31,6 +33,13 @@ import PEval.Properties.C04Area
 
 * `PEval/Properties/C04Area.lean` (namespace `PEval.C04`): index-based area = recall-based area ("maximum precision at any
   higher recall") for non-decreasing recalls; `Map`'s i-th AP is the `Ap` of the i-th label on the bucket looked up by key.
+
+* `PEval/Properties/C04ScenePipeline.lean` (namespace `PEval.PipelineProps`): `pipeline_scene_in_unit_interval` — the
+  per-frame hypotheses of `C04.scene_in_unit_interval` discharged for histories of frames evaluated by
+  `Pipeline.detectFrame` (C01's one-to-one theorems, frame by frame; ground-truth ids may repeat across frames).
+* `PEval/Properties/C04SceneEval.lean` (namespace `PEval.C04`): `eval_scene_in_unit_interval` — the same for histories
+  evaluated by `FrameChange.evalFrame`; the remaining input hypotheses (ids, heading weights) follow from the
+  construction (`C03.ObjectsDistinct`, `C09.aphWeight_range`).
 
 The core is a separate module only because the composition imports it (no import cycle); the audit
 of `./check C04` imports this root and therefore sees both.
